@@ -150,7 +150,7 @@ func TestIssuer(t *testing.T) {
 		}
 		// stripped signature, appended bytes, truncations
 		mustReject(t, s, iss, honest[:len(honest)-96], "signature-stripped")
-		mustReject(t, s, iss, append(append([]byte{}, honest...), rapid.SliceOfN(rapid.Byte(), 1, 20).Draw(t, "tail")...), "bytes-appended")
+		mustReject(t, s, iss, append(append([]byte{}, honest...), gen.Bytes(t, 1, 20, "tail")...), "bytes-appended")
 		mustReject(t, s, iss, honest[:gen.Uniform(t, len(honest), "cut")], "truncated")
 
 		// another issuer's name key: request honestly built for B, sent to A (same token key, same origin registered)
@@ -255,7 +255,9 @@ func TestIssuer(t *testing.T) {
 		c = base
 		c.inner = inner[:gen.UniformRange(t, 0, 258, "innercut")] // inner request does not parse
 		mustReject(t, s, iss, c.build(), "crafted-truncated-inner-request")
-		s.Sample(func() any { return map[string]any{"origin": sess.Origin, "registered_empty": emptyRegistered, "request": rt.Hex(honest)} })
+		s.Sample(func() any {
+			return map[string]any{"origin": sess.Origin, "registered_empty": emptyRegistered, "request": rt.Hex(honest)}
+		})
 	})
 }
 
